@@ -70,6 +70,9 @@ def mk_operand(alg, kind, nm, shared=None):
 def congr_query(alg, outs, spec, assumptions=(), tmo=60):
     """all (out_i - spec_i) ≡ 0 mod p ?  -> smt.Res"""
     def goal(tr): return z3.And([tr.any((alg.toz3(o) - alg.toz3(s_)) % P == 0) for o, s_ in zip(outs, spec)])
+    if assumptions:
+        sv = z3.Solver(); sv.set('timeout', 30000); sv.add(list(assumptions))
+        if sv.check() == z3.unsat: return smt.Res('unknown', info='vacuous: assumptions unsatisfiable')
     return smt.prove(goal, assumptions=[(lambda a: (lambda tr: tr.any(a)))(a) for a in assumptions], timeout=tmo,
                      variants=[dict(limb_min=0, abstract=False, logic=None, share=0.5), dict(limb_min=0, abstract=False, logic='QF_NIA', share=0.5)])
 
